@@ -60,6 +60,8 @@ def run_impl(pg, fam="int"):
         P = build_pag(pg, lab)
     except Exception as e:
         return {"res": "err:build:" + type(e).__name__}
+    if C.too_many_timeouts():
+        return {"res": "err:does-not-terminate(20s)", "corder": [], "mutated": False}
     try:
         from . import c08 as _c08
         _c08.pollute_other_objects()
@@ -81,6 +83,7 @@ def run_impl(pg, fam="int"):
         with C.time_limit(20):
             M = pag_to_mag(P)
     except C.CallTimeout:
+        C.note_timeout({"pag": pg, "fam": fam}, 20)
         return {"res": "err:does-not-terminate(20s)", "corder": corder, "mutated": before != C.snapshot(P)}
     except Exception as e:
         return {"res": "err:" + type(e).__name__, "corder": corder, "mutated": before != C.snapshot(P)}
